@@ -137,23 +137,46 @@ def regen():
     return True, "", stats
 
 
+def coqc_log(target):
+    """compile coq/<target minus .vo>.v into a scratch directory (the real .vo stays untouched) and return coqc's
+    output: the Print Assumptions lines of an up-to-date file without recompiling what depends on it"""
+    src = target[:-1]
+    sdir = os.path.join(CACHE, "scratch", "%d_%s" % (os.getpid(), target.replace("/", "_")))
+    os.makedirs(sdir, exist_ok=True)
+    scratch = os.path.join(sdir, os.path.basename(target))
+    rc, out, err = sh(["coqc", "-q", "-Q", ".", "BV", "-o", scratch, src], cwd=COQ, timeout=1800)
+    shutil.rmtree(sdir, ignore_errors=True)
+    return rc == 0, out + err
+
+
 def build_vo_logged(target):
-    """make one .vo; returns (ok, log of the compilation that produced the current .vo).
-    The log (with the Print Assumptions output) is cached next to the build so that an up-to-date file is
-    not recompiled just to see it again."""
+    """make one .vo; returns (ok, log of a compilation of the current source against the current dependencies).
+    The log (with the Print Assumptions output) is cached, so an up-to-date file is not compiled again."""
     logp = os.path.join(CACHE, "coqlog", target.replace("/", "_") + ".log")
     os.makedirs(os.path.dirname(logp), exist_ok=True)
     vo = os.path.join(COQ, target)
     ok, log = build_coq([target])
-    compiled = ("COQC " + target[:-1]) in log
-    if ok and not compiled:
-        if os.path.exists(logp) and os.path.getmtime(logp) >= os.path.getmtime(vo):
-            return True, open(logp).read()
-        os.remove(vo)                      # no log of this .vo: compile it once more
-        ok, log = build_coq([target])
-    if ok:
+    if not ok:
+        return False, log
+    if ("COQC " + target[:-1]) in log:
         open(logp, "w").write(log)
-    return ok, log
+        return True, log
+    if os.path.exists(logp) and os.path.getmtime(logp) >= os.path.getmtime(vo):
+        return True, open(logp).read()
+    ok2, log2 = coqc_log(target)
+    if ok2:
+        open(logp, "w").write(log2)
+    return ok2, log2
+
+
+def logged_targets():
+    ts = ["Props/C%02d.vo" % i for i in range(1, 21)]
+    for fs in REFINE.values():
+        for f in fs:
+            t = "Refine/%s.vo" % f
+            if t not in ts:
+                ts.append(t)
+    return ts
 
 
 def build_driver():
@@ -499,6 +522,18 @@ def setup():
     print("coq: %s" % ("ok" if ok else "FAILED\n" + log[-3000:]))
     if not ok:
         return 1
+    # Print Assumptions logs of every property / refinement file (scratch compilations, 16 at a time)
+    from concurrent.futures import ThreadPoolExecutor
+    def one(t):
+        ok1, lg = coqc_log(t)
+        if ok1:
+            lp = os.path.join(CACHE, "coqlog", t.replace("/", "_") + ".log")
+            os.makedirs(os.path.dirname(lp), exist_ok=True)
+            open(lp, "w").write(lg)
+        return ok1
+    with ThreadPoolExecutor(16) as ex:
+        oks = list(ex.map(one, logged_targets()))
+    print("assumption logs: %d/%d" % (sum(oks), len(oks)))
     ok, _, log = build_driver()
     print("driver: %s" % ("ok" if ok else "FAILED\n" + log))
     print("setup %.0fs" % (time.time() - t0))
